@@ -152,6 +152,8 @@ class Reader:
                     )
                 self.meta["fileTimeSecs"] = ftsec
         else:
+            # the size is taken when the file is opened: it may have changed since the constructor ran
+            self.nbytes = self.file_bin.stat().st_size
             if self.nc * self.ns * self.dtype.itemsize != self.nbytes:
                 # only complete sample frames count: a trailing partial frame (interrupted write) can't be mapped
                 ftsec = (
